@@ -13,3 +13,28 @@ package api
 //@   trusted
 //@   pure
 //@   ensures result == unavail(err)
+
+// ---- context modes ----
+
+//@ ghost func IsCheck(c *Context) bool { return c.mode == ContextCheckTx }
+//@ ghost func IsSim(c *Context) bool { return c.mode == ContextSimulateTx }
+//@ ghost func IsInit(c *Context) bool { return c.mode == ContextInitChain }
+
+//@ func Context.IsCheckOnly
+//@   props C08 C09
+//@   modifies nothing
+//@   ensures result == IsCheck(c)
+
+//@ func Context.IsSimulation
+//@   props C08 C09
+//@   modifies nothing
+//@   ensures result == IsSim(c)
+
+//@ func Context.IsInitChain
+//@   props C08
+//@   modifies nothing
+//@   ensures result == IsInit(c)
+
+//@ func Context.SetGasAccountant
+//@   props C08 C09
+//@   modifies c.gasAccountant
